@@ -67,7 +67,7 @@ def h_evolve(n_a: int, n_b: int, fail_at: int, save_fails: bool, second_call: bo
     """Evolver.evolve(): evolving once and first; then exactly one of evolved (iff normal return
     and the signature was saved) / evolving_failed; the process-wide lock returns to its start.
 
-    pre: 0 <= n_a <= 2 and 0 <= n_b <= 2 and -1 <= fail_at <= 4
+    pre: 0 <= n_a <= hx.bound(2, 3) and 0 <= n_b <= hx.bound(2, 3) and -1 <= fail_at <= hx.bound(4, 6)
     pre: not hx.excluded(n_a, n_b, fail_at, save_fails, second_call)
     post: _
     """
@@ -251,7 +251,7 @@ def h_create_models(n_tasks: int, fail: bool) -> bool:
     """EvolveAppTask._create_models(): one creating_models per task up front, one created_models
     per task (same payload, same order) iff the SQL ran.
 
-    pre: 1 <= n_tasks <= 3
+    pre: 1 <= n_tasks <= hx.bound(3, 5)
     post: _
     """
     log = []
